@@ -62,6 +62,7 @@ package uu
 // no buffer and an error.
 //@ func AppendDecode(dst, src) (res, err)
 //@   props C15
+//@   modifies Mem(dst)
 //@   requires spare_capacity_of_dst_does_not_overlap_src: disjointSpare(dst, src)
 //@   ensures source: forall(i, 0 <= i && i < len(src), src[i] == old(src[i]))
 //@   ensures prefix: imp(err == nil, len(res) >= len(dst) && forall(q, 0 <= q && q < len(dst), res[q] == old(dst[q])))
@@ -132,16 +133,22 @@ package uu
 // encoding of src; neither src nor the old contents of dst are modified.
 //@ func AppendEncode(dst, src) (res)
 //@   props C15
+//@   modifies Mem(dst)
 //@   requires spare_capacity_of_dst_does_not_overlap_src: disjointSpare(dst, src)
 //@   ensures length: len(res) == len(dst) + encLen(len(src))
 //@   ensures prefix: forall(q, 0 <= q && q < len(dst), res[q] == old(dst[q]))
 //@   ensures encoded: forall(p, 0 <= p && p < encLen(len(src)), res[len(dst)+p] == old(encByte(src, p)))
 //@   ensures source: forall(i, 0 <= i && i < len(src), src[i] == old(src[i]))
+//@   ensures encoded_cells: forallCell(res, q, c, imp(q >= len(dst), c == old(encByte(src, q - len(dst)))))
+//@   after "loop 1": assert(forall(p, 0 <= p && p < encLen(len(src)), dst[len(old(dst))+p] == old(encByte(src, p)), trig(old(encByte(src, p)))), "encoded_keyed_by_the_specification")
+//@   ensures nothing_appended_for_empty_input: imp(len(src) == 0, res == dst)
+//@   ensures own_array_when_started_from_nothing: imp(cap(dst) == 0 && len(src) > 0, fresh(res))
 //@   before "dst = append(dst, byte(uuOffset+len(line)))": assert(byte(uuOffset+len(line)) == old(encByte(src, 62*k)), "length_char_is_perls")
 //@   before "dst = append(dst, enc[0], enc[1], enc[2], enc[3])": assert(forall(p, 0 <= p && p < 62*k + 1 + 4*j, dst[len(old(dst))+p] == old(encByte(src, p))), "encoded"); assert(enc[0] == old(encByte(src, 62*k + 1 + 4*j)), "char0_is_perls"); assert(enc[1] == old(encByte(src, 62*k + 2 + 4*j)), "char1_is_perls"); assert(enc[2] == old(encByte(src, 62*k + 3 + 4*j)), "char2_is_perls"); assert(enc[3] == old(encByte(src, 62*k + 4 + 4*j)), "char3_is_perls")
 //@   after "dst = append(dst, enc[0], enc[1], enc[2], enc[3])": assert(forall(p, 0 <= p && p < 62*k + 1 + 4*j, dst[len(old(dst))+p] == prev(dst[len(old(dst))+p])), "append_keeps_earlier_output"); assert(forall(p, 0 <= p && p < 62*k + 1 + 4*j, dst[len(old(dst))+p] == old(encByte(src, p))), "earlier_output_still_encoded"); assert(dst[len(old(dst)) + 62*k + 1 + 4*j] == old(encByte(src, 62*k + 1 + 4*j)), "stored_char0"); assert(dst[len(old(dst)) + 62*k + 2 + 4*j] == old(encByte(src, 62*k + 2 + 4*j)), "stored_char1"); assert(dst[len(old(dst)) + 62*k + 3 + 4*j] == old(encByte(src, 62*k + 3 + 4*j)), "stored_char2"); assert(dst[len(old(dst)) + 62*k + 4 + 4*j] == old(encByte(src, 62*k + 4 + 4*j)), "stored_char3"); assert(forall(p, 62*k + 1 + 4*j <= p && p < 62*k + 5 + 4*j, p == 62*k + 1 + 4*j || p == 62*k + 2 + 4*j || p == 62*k + 3 + 4*j || p == 62*k + 4 + 4*j, trig(dst[len(old(dst))+p])), "four_new_positions"); assert(forall(p, 62*k + 1 + 4*j <= p && p < 62*k + 5 + 4*j, dst[len(old(dst))+p] == old(encByte(src, p))), "new_output_encoded")
 //@   before "dst = append(dst, '\\n')": assert(old(encByte(src, 62*k + 1 + 4*j)) == '\n', "newline_is_perls")
 //@   loop 1 counter k
+//@     invariant origin: imp(k == 0, dst == old(dst)) && imp(cap(old(dst)) == 0 && k > 0, fresh(dst))
 //@     invariant consumed: 0 <= k && (k == 0 || 45*(k-1) < len(src))
 //@     invariant length: len(dst) == len(old(dst)) + encLen(min(45*k, len(src)))
 //@     invariant apart: disjointSpare(dst, src)
@@ -151,6 +158,7 @@ package uu
 //@     apply linePos(k, 0)
 //@     apply encLenFullLines(k)
 //@   loop 1.1 counter j
+//@     invariant origin: imp(cap(old(dst)) == 0, fresh(dst))
 //@     invariant progress: 0 <= j && 3*j <= len(line) + 2
 //@     invariant length: len(dst) == len(old(dst)) + 62*k + 1 + 4*j
 //@     invariant apart: disjointSpare(dst, src)
@@ -162,3 +170,13 @@ package uu
 //@     apply linePos(k, 2 + 4*j)
 //@     apply linePos(k, 3 + 4*j)
 //@     apply linePos(k, 4 + 4*j)
+
+// The composed statement of C15's round-trip clause, on real (tag-guarded)
+// code: the decoder's universally quantified x is bound to the client's x, the
+// hypothesis H must then be established from the encoder's postconditions.
+//@ func verifRoundTrip(dst, x) (res, err)
+//@   props C15
+//@   bind AppendDecode.x = x
+//@   before "dec, err := AppendDecode(dst, enc)": assert(len(enc) == elen(len(x)), "rt_encoding_has_the_specified_length"); assert(forallCell(enc, p, c, c == old(encByte(x, p))), "rt_every_cell_of_the_encoding_is_the_specified_byte"); assert(forall(p, 0 <= p && p < elen(len(x)), encByte(x, p) == old(encByte(x, p)), trig(encByte(x, p))), "rt_specification_reads_the_unchanged_input"); assert(forallCell(enc, p, c, c == encByte(x, p)), "rt_hypothesis_of_the_decoder_holds")
+//@   before "return dec, err": assert(err == nil && len(dec) == len(dst) + len(x), "rt_decoder_accepts_the_encoding_and_appends_len_x_bytes")
+//@   ensures decoding_the_encoding_gives_the_input_back: err == nil && len(res) == len(dst) + len(x) && forall(q, len(dst) <= q && q < len(dst) + len(x), res[q] == old(x[q - len(dst)]))
